@@ -143,7 +143,8 @@ fn queries(sv: &SparseVector, vals: &[usize], w: usize, lv: &Level, rng: &mut Rn
     idxs.extend(extremes(n));
     ranks.extend(extremes(m));
     zranks.extend(extremes(z));
-    let (cap_idx, cap_rank) = if thorough() { (36, 18) } else if m == 0 && n > 5000 { (10, 8) } else { (22, 11) };
+    // an empty vector over a large universe makes every successor scan walk all of high: ask fewer questions
+    let (cap_idx, cap_rank) = if m == 0 && n > 5000 { (10, 8) } else if thorough() { (36, 18) } else { (22, 11) };
     if lv.all_args && n <= 40 && m <= 60 {
         idxs.extend(0..=n + 1);
         ranks.extend(0..=m + 1);
@@ -426,7 +427,7 @@ fn subsets_exhaustive(out: &mut Out, rng: &mut Rng, max_n: usize) {
 
 fn run_sets(rng: &mut Rng, out: &mut Out, thorough: bool) {
     let budget = if thorough { 4.0e8 } else { 5.0e7 };
-    subsets_exhaustive(out, rng, if thorough { 8 } else { 6 });
+    subsets_exhaustive(out, rng, if thorough { 9 } else { 6 });
 
     // (n, m) grid
     let ns: Vec<usize> = vec![0, 1, 2, 3, 63, 64, 65, 100, 1000, 1 << 16, 1 << 20, 1 << 32, 1 << 40, 1 << 63, MAX - 1, MAX];
@@ -437,7 +438,7 @@ fn run_sets(rng: &mut Rng, out: &mut Out, thorough: bool) {
             if m > n || !seen.insert(m) {
                 continue;
             }
-            if replay_cost(n, m) > budget {
+            if replay_cost(n, m) > budget || (m == 0 && n > (1 << 17)) {
                 out.stat("grid.skipped_too_large_for_replay");
                 continue;
             }
@@ -582,7 +583,7 @@ fn run_sets(rng: &mut Rng, out: &mut Out, thorough: bool) {
         if m > n {
             m = n;
         }
-        if replay_cost(n, m) > budget / 10.0 {
+        if replay_cost(n, m) > budget / 10.0 || (m == 0 && n > (1 << 14)) {
             continue;
         }
         let st = rng.below(5);
